@@ -25,13 +25,13 @@ RULE = ("3 of 4 runs: EVSE bench - one generated EVSE (continuous incl. min>0 / 
 PROBES = ["near_boundary_with_ev", "near_boundary_no_ev", "rejected", "accepted_edge", "nan_pilot", "advertised_value",
           "plugin_occupied", "world_invalid_pilot", "world_rejected_with_ev", "min_gt_zero_evse", "inf_max_evse", "advertised_inf_max",
           "finite_without_zero", "finite_unsorted_or_dup", "twin_evses_world", "world_resume_json", "world_advertised_value",
-          "plugin_occupied_same_session_id"]
+          "plugin_occupied_same_session_id", "world_party_scribbled_on_handed_info", "rates_given_as_one_shot_iterable"]
 FAULT_DIMENSION = ("misbehaving scheduler: out-of-set pilot at an arbitrary call of a run (terminal fault, judged on the rejected station); "
                    "scheduler crash + JSON save/load (advertised limits must still be each station's own)")
 REAL_VS_STUB = "real: EVSE, DeadbandEVSE, FiniteRatesEVSE, EV, Battery models, ChargingNetwork, Interface, Simulator; ours: probing party"
 ASSUMPTIONS = ["accepted <=> dist(pilot, allowable set of the scenario) <= 1e-3, with a guard band of 1e-9 around exactly 1e-3 (inconclusive)",
                "a rejected pilot aborts the period half-way by design: only the rejected station is judged"]
-P_WORLD = world.profile(party={"scripted": 1}, faults={"invalid_pilot": 1.0, "crash": 0.5}, resume_modes=["rerun", "json_str", "json_buf"],
+P_WORLD = world.profile(party={"scripted": 1}, faults={"invalid_pilot": 1.0, "crash": 0.5, "mutate": 0.6}, resume_modes=["rerun", "json_str", "json_buf"],
                         evse_kinds={"cont": 3, "dead": 3, "finite": 3, "cont_inf": 1}, stations=(2, 6))
 DELTAS = [0.0, 0.5e-3, -0.5e-3, 0.9e-3, -0.9e-3, 1.1e-3, -1.1e-3, 2e-3, -2e-3, 1.0, -1.0]
 
@@ -132,7 +132,8 @@ def gen(rs, tier):
             ops.append({"op": "plugin", "same_id": r.random() < 0.4})
         elif ev is not None:
             ops.append({"op": "unplug"})
-    return {"seed": rs, "evse": e, "ev": ev, "ops": ops, "voltage": r.choice([120, 208, 240]), "period": r.choice([1, 5, 15])}
+    return {"seed": rs, "evse": e, "ev": ev, "ops": ops, "voltage": r.choice([120, 208, 240]), "period": r.choice([1, 5, 15]),
+            "rates_form": r.choice(["list", "list", "iter", "gen", "map", "tuple", "ndarray"])}
 
 
 def check(sc):
@@ -155,7 +156,16 @@ def check(sc):
     try:
         with warnings.catch_warnings():
             warnings.simplefilter("ignore")
-            evse = build_evse("X", e)
+            if e["type"] == "Finite" and sc.get("rates_form") in ("iter", "gen", "map", "tuple", "ndarray"):
+                rf = sc["rates_form"]
+                rates_ = list(e["rates"])
+                arg = {"iter": lambda: iter(rates_), "gen": lambda: (x for x in rates_), "map": lambda: map(float, rates_),
+                       "tuple": lambda: tuple(rates_), "ndarray": lambda: np.array(rates_, dtype=float)}[rf]()
+                evse = sut.FiniteRatesEVSE("X", arg)
+                if rf in ("iter", "gen", "map"):
+                    out.probe("rates_given_as_one_shot_iterable")
+            else:
+                evse = build_evse("X", e)
             mk_ev = lambda i: sut.EV(0, 100, sc["ev"]["energy"], "X", "sess%d" % i, build_battery(sc["ev"]["battery"]))
             cur_ev = None
             nev = 0
@@ -269,6 +279,7 @@ def check_world(sc):
     st = {s["id"]: s for s in sc["network"]["stations"]}
     if sc.get("twins"):
         out.probe("twin_evses_world")
+    out.probe("world_party_scribbled_on_handed_info", tr.fault_counts.get("mutate", 0))
     out.probe("world_resume_json", sum(1 for r_ in tr.resumes if r_["mode"] != "rerun"))
     # what the network / interface advertise for every station, at every call, is that station's own allowable set
     for c in tr.calls:
